@@ -461,12 +461,68 @@ def make_backend(kind):
 
         os.makedirs(SCRATCH_ROOT, exist_ok=True)
         return Backend(kind, TempFS(temp_dir=SCRATCH_ROOT))
+    if kind in FTP_KINDS:
+        return make_ftp_backend(kind)
     raise ValueError(kind)
+
+
+FTP_KINDS = ("ftp", "ftp-nomlsd")
+
+
+def make_ftp_backend(kind):
+    """FTPFS against a loopback pyftpdlib server of its own (thread in this process, ephemeral port) whose
+    single user's home is a fresh scratch directory: `b.fs` is the FTPFS, `b.root` the backing directory
+    (for an independent snapshot through the OS: `ftp_os_snapshot`), `b.server` the server; `b.close()`
+    closes the FTPFS, stops the server and removes the directory.  "ftp-nomlsd": the server does not
+    offer MLSD/MLST, so FTPFS parses LIST output.  A server that cannot be started is vlib.Infra."""
+    import ftpserver
+    from fs.ftpfs import FTPFS
+
+    d = _tmpdir()
+    srv = ftpserver.FtpServer(d, mlsd=(kind == "ftp")).start()
+
+    def cleanup():
+        srv.stop()
+        rm_rf(d)
+
+    try:
+        f = FTPFS(srv.host, srv.user, srv.passwd, port=srv.port, timeout=8)
+        want = kind == "ftp"
+        if ("MLST" in f.features) != want:
+            raise vlib.Infra("loopback FTP server (%s): MLST advertised=%r, expected %r" % (kind, not want, want))
+    except vlib.Infra:
+        cleanup()
+        raise
+    except Exception as e:  # noqa  (connection problems are infrastructure, never a verdict)
+        cleanup()
+        raise vlib.Infra("cannot connect FTPFS to the loopback server %s:%s: %r" % (srv.host, srv.port, e))
+    b = Backend(kind, f, cleanup=cleanup)
+    b.root = d
+    b.server = srv
+    return b
+
+
+def ftp_os_snapshot(b):
+    """what is on disk behind an FTP backend (sorted snapshot form), observed through the OS"""
+    import ftpserver
+
+    return ftpserver.os_snapshot(b.root)
 
 
 def build_state(kind, snap):
     """a fresh backend of `kind` holding exactly the tree `snap`"""
     b = make_backend(kind)
+    if kind in FTP_KINDS:
+        # straight into the server's directory: no dependence on the library under test, no connections
+        for e in snap:
+            p = os.path.join(b.root, *e[1].split("/"))
+            if e[0] == "D":
+                os.makedirs(p, exist_ok=True)
+            else:
+                os.makedirs(os.path.dirname(p), exist_ok=True)
+                with open(p, "wb") as fh:
+                    fh.write(e[2])
+        return b
     for e in snap:
         if e[0] == "D":
             b.fs.makedirs(e[1], recreate=True)
